@@ -732,3 +732,24 @@ Proof.
       all: cbn [step]; repeat break_match; cbn [snd]; discriminate.
   - split; [reflexivity|]. split; [intros s []|]. split; [|constructor]. intros h. cbn. lia.
 Qed.
+
+(* the one-step statements at every reachable state *)
+Lemma run_kl_bound q ops d : q_depth q = Some d -> 0 <= d -> kl_bound d (run q ops).
+Proof. intros Hd Hd0 h. now apply keep_last_bound. Qed.
+
+Theorem rejected3_needs_non_alive_reach q ops d w data k h t rts h' :
+  q_depth q = Some d -> 0 <= d -> lim_ok (q_mspi q) d = true ->
+  snd (add_change (run q ops) w data k h t rts) = Rejected h' 3 ->
+  exists s, In s (r_samples (run q ops)) /\ s_inst s = h /\ s_kind s <> KAlive.
+Proof.
+  intros Hd Hd0 Hl. apply rejected3_needs_non_alive with (d := d); rewrite ?run_qos; auto.
+  now apply run_kl_bound.
+Qed.
+Theorem never_rejected_for_depth_reach q ops d w data k h t rts h' :
+  q_depth q = Some d -> 0 <= d -> lim_ok (q_mspi q) d = true ->
+  (forall s, In s (r_samples (run q ops)) -> s_inst s = h -> s_kind s = KAlive) ->
+  snd (add_change (run q ops) w data k h t rts) <> Rejected h' 3.
+Proof.
+  intros Hd Hd0 Hl Hal. apply never_rejected_for_depth with (d := d); rewrite ?run_qos; auto.
+  now apply run_kl_bound.
+Qed.
